@@ -9,10 +9,15 @@
     override (`C04_closure_refused`);
   * what is logged and delivered to non-overriding probes is the substituted value
     (`C04_logged_value_is_final`).
-  The program half (the call behaves as the source with the binding replaced) is decided by the
-  rewrite model M2 and the substituted-twin oracle.
+  Program half, over model M2 (Props/C01 describes it): the reference semantics binds a captured name to
+  what the handler answers and goes on with it (`C04_binding_stores_the_answer`), after evaluating the
+  right-hand side once (`C04_rhs_once_then_binding`); the REWRITTEN function does exactly what that
+  semantics does, for every handler — overriding or not — (`C04_rewritten_is_substituted_program`), every
+  function of the core fragment, capture set, input and generator script.  A binding whose override
+  declines (answers the value) stores the value (`C04_declined_untouched`).
 -/
 import PteraModel.Model.Handlers
+import PteraModel.Props.C01
 namespace Ptera.Props.C04
 open Ptera.Handlers
 
@@ -102,5 +107,51 @@ theorem C04_example_decline : seen (runAll #[ov 10, declining, plain] infosEx [t
 theorem C04_example_closure :
     (runAll #[ov 10] infosEx [.node 0 [.inl { name := "x", value := some { v := 1 }, overridable := false }]]).2
       = some (.overrideException "x") := by decide
+
+
+/-! ## program half (model M2) -/
+section Program
+open Ptera.Py Ptera.Sem
+variable {W HS : Type}
+
+/-- whatever the handler answers (override, decline, error), the rewritten function behaves as the
+    reference semantics, in which the answer is what the binding stores -/
+theorem C04_rewritten_is_substituted_program (host : Host W HS) (hh : HostSpec host) (cfg : Cfg) (f : FunDef)
+    (fuel : Nat) (hf : coreF f = true) (st0 : St W HS) (hinit : ∀ x ∈ (collect f).external, st0.loc x = none) :
+    (runInstr (ctxOf host cfg f fuel).envI fuel (instrument cfg f) st0).1
+      = (runRef (ctxOf host cfg f fuel).envR fuel f st0).1
+    ∧ Obs (runInstr (ctxOf host cfg f fuel).envI fuel (instrument cfg f) st0).2
+        (runRef (ctxOf host cfg f fuel).envR fuel f st0).2 :=
+  instrument_refines host cfg f fuel hf (libSpec_of_host host hh cfg f fuel hf) st0 hinit
+
+/-- a binding of a name stores the handler's answer -/
+theorem C04_binding_stores_the_answer (env : Env W HS) (x : String) (ann : Option Ann) (v : Sem.Val) :
+    assignT env (.name x) ann v = (hook env x ann v >>= fun r => setLoc x (some r)) := rfl
+
+/-- `x = e`: the right-hand side is evaluated (once), then the binding takes place -/
+theorem C04_rhs_once_then_binding (env : Env W HS) (fuel : Nat) (x : String) (e : Expr) :
+    execS env fuel (.assign [.name x] e) =
+      stepM (evalE env e) fun v => stepM (assignTs env v [.name x]) fun _ => done .normal := by
+  simp [execS]
+
+/-- the override declines (the handler answers the value it was shown): the value is stored -/
+theorem C04_declined_untouched (env : Env W HS) (name : String) (key ann v : Sem.Val) (ovr : Bool) (st : St W HS)
+    (hv : v ≠ .absent)
+    (hdecl : (env.host.hnd { name := name, key := key, ann := ann, value := v, ovr := ovr } st.hs).1 = .ok v) :
+    (interactSem env name key ann v ovr st).1 = .ok v := by
+  unfold interactSem
+  rcases hh : env.host.hnd { name := name, key := key, ann := ann, value := v, ovr := ovr } st.hs with ⟨r, hs1⟩
+  rw [hh] at hdecl
+  simp only at hdecl
+  subst hdecl
+  cases v <;> first | exact absurd rfl hv | rfl
+
+/-- a test: `def f(a): b = a; return b` with `b` overridden to `b + 3` returns 8 through the rewritten code -/
+theorem C04_example_program :
+    Ptera.Props.C01.isRetInt (runInstr (ctxOf PyLite.host [⟨some "b", none⟩] Ptera.Props.C01.sample 5).envI 5
+        (instrument [⟨some "b", none⟩] Ptera.Props.C01.sample)
+        { Ptera.Props.C01.sampleState with hs := { override := some ("b", 3) } }).1 8 = true := by decide
+
+end Program
 
 end Ptera.Props.C04
